@@ -11,6 +11,7 @@ import DdoModel.Engines.ExModelSrflp
 import DdoModel.Engines.ExModelTalentsched
 import DdoModel.Engines.ExModelLcs
 import DdoModel.Engines.ExModelTsptw
+import DdoModel.Engines.ExModelSop
 /-! Driver engine `exmodel` (C16, knapsack and misp): every observation the harness made on the example's own `Problem`,
     `Relaxation` and `StateRanking` implementations (compiled into the harness from the example's source file) is
     recomputed with the Lean model `KnapsackDp.lean` — the model the well-formedness theorems of `KnapsackModel.lean`
@@ -221,6 +222,7 @@ def exmodelEngine (c i : List String) : Option Res := do
   | [["talentsched"], toks, u] => talentschedCase toks u i
   | [["lcs"], toks, _] => lcsCase toks i
   | [["tsptw"], toks, _] => tsptwCase toks i
+  | [["sop"], toks, _] => sopCase toks i
   | _ => none
 
 end Ddo.Engines
